@@ -65,3 +65,13 @@ package signaller
 //@ func (s *Signaller) Start
 //@ modifies Refreshed, PendingIDs, s
 //@ loop 0: invariant true
+
+// C20: a submission is handed to the submitter only AFTER every one of its signals has been marked in flight. Under the
+// schedule in which the submitter takes the submission and finishes it (releasing its signals) at the very moment of
+// the hand-over, nothing of the submission may be left marked afterwards - a mark placed after the hand-over would stay
+// forever and the signal would never be submitted again.
+//@ func (s *Signaller) submitPrices
+//@ on_send grogu/submitter.Submitter.submitPrice
+//@ modifies PendingIDs
+//@ ensures forall j :: 0 <= j && j < len(prices) ==> !has(PendingIDs, prices[j].SignalID)
+//@ loop 0: invariant forall j :: 0 <= j && j < #i ==> has(PendingIDs, prices[j].SignalID)
